@@ -36,7 +36,7 @@ try:
     expect('MibCompileTrace rejects a flipped status', v['flip-status']['refine'] != 'ok' or v['flip-status']['failed'], str(v['flip-status']['failed'])[:80])
     expect('MibCompileTrace rejects two swapped events', v['swap-events']['refine'] != 'ok' or v['swap-events']['failed'], 'at=%s' % v['swap-events']['at'])
     # --- MibDump, real script
-    w = {'usage': 'none', 'req': ['AA-MIB'], 'srcA': 'ok', 'src2A': 'missing', 'srcB': 'broken', 'alias': False, 'sub': False, 'dstKind': 'dir', 'reqForm': 'name', 'imp': 'AB', 'spell': 'exact',
+    w = {'usage': 'none', 'req': ['AA-MIB'], 'srcA': 'ok', 'src2A': 'missing', 'srcB': 'broken', 'alias': False, 'sub': False, 'dstKind': 'dir', 'reqForm': 'name', 'stubB': False, 'imp': 'AB', 'spell': 'exact',
          'dstA': 'stale', 'dstB': 'absent', 'borA': False, 'borB': True, 'base': True, 'noDeps': False, 'rebuild': False,
          'ignoreErrors': True, 'noWrites': False, 'dryRun': False, 'texts': 'no', 'buildIndex': True, 'quiet': False}
     root = tlc.mkscratch('bind-')
